@@ -73,8 +73,12 @@ def _weights(draw, n, allow_zero=True):
 
 
 def _values(draw, n):
-    kind = draw(st.sampled_from(["float", "int", "pool", "offset", "wide"]))
-    if kind == "float":
+    kind = draw(st.sampled_from(["float", "int", "pool", "offset", "wide", "u1range", "i2range"]))
+    if kind == "u1range":
+        el = st.integers(0, 255).map(float)             # fits an unsigned byte
+    elif kind == "i2range":
+        el = st.integers(-3000, 3000).map(float)        # fits a 2-byte integer; squares do not
+    elif kind == "float":
         el = st.floats(-1e3, 1e3)
     elif kind == "int":
         el = st.integers(-50, 50).map(float)
@@ -113,8 +117,15 @@ def wmom_cases(draw):
         n = 100
     cols = max(d, 1)
     kinds, arr = [], []
+    # one case in six is a narrow-integer data set as a whole (counts, pixel values, ADU): every column fits the
+    # type, the array is handed over in that type, and a supplied mean is an integer
+    intmode = draw(st.sampled_from([None, None, None, None, None, "u1array", "u8array", "i2array"]))
     for _ in range(cols):
-        k, v = _values(draw, n)
+        if intmode:
+            el = (st.integers(0, 255) if intmode != "i2array" else st.integers(-3000, 3000)).map(float)
+            k, v = ("u1range" if intmode != "i2array" else "i2range"), draw(st.lists(el, min_size=n, max_size=n))
+        else:
+            k, v = _values(draw, n)
         kinds.append(k)
         arr.append(v)
     wshape = "1d"
@@ -124,7 +135,9 @@ def wmom_cases(draw):
         wshape = "nd"
         wcols = [w] + [_weights(draw, n)[1] for _ in range(cols - 1)]
     inputmean = None
-    if draw(st.integers(0, 3)) == 0:
+    if intmode and draw(st.booleans()):
+        inputmean = draw(st.integers(0, 5) if intmode != "i2array" else st.integers(-5, 5))
+    elif draw(st.integers(0, 3)) == 0:
         one = st.one_of(st.floats(-1e3, 1e3), st.integers(-5, 5).map(float), st.integers(-5, 5))
         inputmean = draw(one)
         if d and draw(st.booleans()):
@@ -133,7 +146,7 @@ def wmom_cases(draw):
     return {"n": n, "d": d, "arr": enc(arr), "w": enc(wcols), "wshape": wshape, "wkind": wk,
             "vkind": kinds[0], "inputmean": inputmean, "calcerr": draw(st.booleans()),
             "sdev": draw(st.booleans()),
-            "container": draw(st.sampled_from(["array", "array", "list", "intarray"]))}
+            "container": intmode or draw(st.sampled_from(["array", "array", "list", "intarray"]))}
 
 
 def _wmom_inputs(case):
@@ -156,6 +169,10 @@ def check_wmom(case, ctx):
         a_in, w_in = arr.tolist(), w.tolist()
     elif case["container"] == "intarray" and integral:
         a_in = arr.astype("i8")
+    elif case["container"] == "i2array" and integral and np.abs(arr).max() < 2 ** 15:
+        a_in = arr.astype("i2")
+    elif case["container"] in ("u1array", "u8array") and integral and arr.min() >= 0 and arr.max() < 256:
+        a_in = arr.astype(case["container"][:2])
     kw = {"calcerr": case["calcerr"], "sdev": case["sdev"]}
     im = case["inputmean"]
     if im is not None:
@@ -220,6 +237,14 @@ def classify_wmom(case):
 
 @st.composite
 def wmedian_cases(draw):
+    if draw(st.integers(0, 9)) == 0:
+        # large inputs (expanded from a seed): equal or small-integer weights make the cumulative weight hit
+        # exactly half the total, values come from a small pool or are all distinct
+        return {"big": {"n": draw(st.sampled_from([1000, 1001, 1002, 2048, 4097, 10001])),
+                        "seed": draw(st.integers(0, 2 ** 32 - 1)),
+                        "values": draw(st.sampled_from(["distinct", "pool"])),
+                        "weights": draw(st.sampled_from(["equal", "small-int", "uniform"]))},
+                "vkind": "big", "wkind": "big", "container": "array"}
     n = draw(_size())
     vk, v = _values(draw, n)
     if draw(st.booleans()):
@@ -269,10 +294,21 @@ def _wmedian_accept(v, w):
     return acc, len(acc) > 1
 
 
+def _wmedian_arrays(case):
+    if "big" not in case:
+        return np.array(dec(case["v"]), dtype="f8"), np.array(dec(case["w"]), dtype="f8")
+    b = case["big"]
+    rng = np.random.Generator(np.random.PCG64(b["seed"]))
+    n = b["n"]
+    v = rng.permutation(n).astype("f8") if b["values"] == "distinct" else rng.integers(0, 7, n).astype("f8")
+    w = (np.ones(n) if b["weights"] == "equal" else rng.integers(1, 4, n).astype("f8") if b["weights"] == "small-int"
+         else rng.uniform(0.1, 2.0, n))
+    return v, w
+
+
 def check_wmedian(case, ctx):
     import esutil.stat as es
-    v = np.array(dec(case["v"]), dtype="f8")
-    w = np.array(dec(case["w"]), dtype="f8")
+    v, w = _wmedian_arrays(case)
     if case["container"] == "list":
         got = must(es.wmedian, v.tolist(), w.tolist())
     else:
@@ -286,9 +322,10 @@ def check_wmedian(case, ctx):
 
 
 def classify_wmedian(case):
-    v = np.array(dec(case["v"]), dtype="f8")
-    w = np.array(dec(case["w"]), dtype="f8")
+    v, w = _wmedian_arrays(case)
     labs = ["wkind:" + case["wkind"], "vkind:" + case["vkind"], "container:" + case["container"]]
+    if "big" in case:
+        labs.append("nt:size>=1000")
     if np.unique(v).size < v.size:
         labs.append("value-ties")
     if (w == 0).any():
@@ -635,6 +672,39 @@ def check_interp(case, ctx):
             info.append((float(x[i]), float(x[i + 1]), float(v[i]), float(v[i + 1]), float(exp)))
         require(ok, "interplin(u=%r)=%r; piecewise-linear value per admissible segment (x_i, x_i+1, v_i, v_i+1, "
                 "value): %r", uq, float(got[j]), info)
+    if case["container"] != "list" and not case.get("_second") and x.size >= 2:
+        # the caller updates his table in place and interpolates again with the same array objects:
+        # the answer must follow the new contents
+        v2 = v.copy()
+        v2[:] = v[::-1] if not np.array_equal(v, v[::-1]) else v + 1
+        x2 = x.copy()
+        case2 = dict(case, v=enc(v2.tolist()), _second=True)
+        v[...] = v2                  # in place: same objects as in the first call
+        got2 = np.asarray(must(es.interplin, v, x, uin), dtype="f8").reshape(-1)
+        ref = _interp_ref(x2, v2, u)
+        for j in range(u.size):
+            require(any(_close(got2[j], e, t) for e, t in ref[j]), "interplin after the table values were changed in "
+                    "place (same array objects): u=%r gives %r, the new table gives %r", float(u[j]), float(got2[j]),
+                    [float(e) for e, _ in ref[j]])
+
+
+def _interp_ref(x, v, u):
+    """Per query: list of (value, tolerance) for each admissible segment of the piecewise-linear interpolant."""
+    xl, vl = x.astype(LD), v.astype(LD)
+    n = x.size
+    xf = x.astype("f8")
+    out = []
+    for uq in u.tolist():
+        cands = set()
+        for side in ("left", "right"):
+            i = int(np.searchsorted(xf, uq, side=side)) - 1
+            cands.add(min(max(i, 0), n - 2))
+        lst = []
+        for i in sorted(cands):
+            term = (LD(uq) - xl[i]) * (vl[i + 1] - vl[i]) / (xl[i + 1] - xl[i])
+            lst.append((vl[i] + term, 1e-12 * float(abs(vl[i]) + abs(vl[i + 1]) + abs(term)) + ABS_FLOOR))
+        out.append(lst)
+    return out
 
 
 def classify_interp(case):
